@@ -10,7 +10,9 @@ import (
 	corestore "cosmossdk.io/core/store"
 	sdkmath "cosmossdk.io/math"
 	storetypes "cosmossdk.io/store/types"
+	"github.com/cosmos/cosmos-sdk/codec"
 	"github.com/cosmos/cosmos-sdk/runtime"
+	"github.com/cosmos/gogoproto/proto"
 	sdk "github.com/cosmos/cosmos-sdk/types"
 	authtypes "github.com/cosmos/cosmos-sdk/x/auth/types"
 	disttypes "github.com/cosmos/cosmos-sdk/x/distribution/types"
@@ -25,6 +27,8 @@ import (
 	burnerkeeper "github.com/elys-network/elys/x/burner/keeper"
 	burnertypes "github.com/elys-network/elys/x/burner/types"
 	commitmentkeeper "github.com/elys-network/elys/x/commitment/keeper"
+	epochskeeper "github.com/elys-network/elys/x/epochs/keeper"
+	epochstypes "github.com/elys-network/elys/x/epochs/types"
 	commitmenttypes "github.com/elys-network/elys/x/commitment/types"
 	estakingkeeper "github.com/elys-network/elys/x/estaking/keeper"
 	estakingtypes "github.com/elys-network/elys/x/estaking/types"
@@ -110,6 +114,7 @@ type Env struct {
 	Lev        *leveragelpkeeper.Keeper
 	Tier       *tierkeeper.Keeper
 	Ts         *tradeshieldkeeper.Keeper
+	Epochs     *epochskeeper.Keeper
 }
 
 type Opts struct {
@@ -154,6 +159,9 @@ func New(o Opts) *Env {
 	e.Ts = tradeshieldkeeper.NewKeeper(cdc, ss(tradeshieldtypes.StoreKey), Gov, e.Bank, e.Amm, e.Perp)
 	e.Tier.SetTradeshieldKeeper(e.Ts)
 
+	e.Epochs = epochskeeper.NewKeeper(epochsCodec{B: cdc}, ss(epochstypes.StoreKey))
+	e.Epochs = e.Epochs.SetHooks(epochstypes.NewMultiEpochHooks(e.Oracle.Hooks(), e.Comm.Hooks(), e.Burner.Hooks(), e.Perp.EpochHooks(), e.Estaking.EpochHooks()))
+
 	if o.TierHooks {
 		e.Stable.SetHooks(stablestakekeeper.NewMultiStableStakeHooks(e.Mc.StableStakeHooks(), e.Tier.StableStakeHooks()))
 		e.Lev.SetHooks(leveragelptypes.NewMultiLeverageLpHooks(e.Perp.LeverageLpHooks(), e.Acc.LeverageLpHooks(), e.Tier.LeverageLpHooks()))
@@ -169,3 +177,24 @@ func New(o Opts) *Env {
 }
 
 var _ = sdkmath.ZeroInt
+
+
+// epochsCodec: the epochs keeper wants a codec.Codec; only the BinaryCodec half is used (any
+// other method hits the nil embedded interface and panics visibly).
+type epochsCodec struct {
+	codec.Codec
+	B vrf.Codec
+}
+
+func (c epochsCodec) Marshal(o proto.Message) ([]byte, error)               { return c.B.Marshal(o) }
+func (c epochsCodec) MustMarshal(o proto.Message) []byte                    { return c.B.MustMarshal(o) }
+func (c epochsCodec) MarshalLengthPrefixed(o proto.Message) ([]byte, error) { return c.B.MarshalLengthPrefixed(o) }
+func (c epochsCodec) MustMarshalLengthPrefixed(o proto.Message) []byte      { return c.B.MustMarshalLengthPrefixed(o) }
+func (c epochsCodec) Unmarshal(bz []byte, ptr proto.Message) error          { return c.B.Unmarshal(bz, ptr) }
+func (c epochsCodec) MustUnmarshal(bz []byte, ptr proto.Message)            { c.B.MustUnmarshal(bz, ptr) }
+func (c epochsCodec) UnmarshalLengthPrefixed(bz []byte, ptr proto.Message) error {
+	return c.B.UnmarshalLengthPrefixed(bz, ptr)
+}
+func (c epochsCodec) MustUnmarshalLengthPrefixed(bz []byte, ptr proto.Message) {
+	c.B.MustUnmarshalLengthPrefixed(bz, ptr)
+}
